@@ -96,6 +96,10 @@ def run(rep, drv):
 		cheap_stockouts = (k % 3 == 1) if k < 6 else rng.random() < .35          # the first cases run through every regime deterministically
 		if cheap_stockouts:
 			h = rng.choice([3, 10, 24]); p = rng.choice([0.5, 1, 2])          # holding dearer than stockouts: r(Q) well below the mean, r+Q near it
+		SLOW = [(1, 0.1, 50, 100, 30, 1), (1, 4, 20, 100, 60, 4.7), (5, 0.5, 8, 1300, 600, 1), (2, 0.25, 20, 500, 200, 0.5)]
+		if 6 <= k < 6 + len(SLOW):
+			# corpus: instances on which the fixed-point iterations of the approximations converge slowly (hundreds of passes)
+			h, p, K, lam, sd, L = SLOW[k - 6]; cheap_stockouts = p < h; rep.count('normal:slowly-converging-approximation')
 		mu = lam * L; sigma = sd * math.sqrt(L)
 		case = {'h': h, 'p': p, 'K': K, 'mean': lam, 'sd': sd, 'L': L}
 		rep.case('normal', case, nontrivial=True); rep.count('normal:' + ('p<h' if cheap_stockouts else 'p>h'))
@@ -137,7 +141,14 @@ def run(rep, drv):
 				if abs(Q3 - math.sqrt(2 * K * lam * (h + p) / (h * p))) > 1e-9 * Q3 or abs(g(r3) - g(r3 + Q3)) > 1e-5 * max(1, g(r3)):
 					bad.append('EOQB approximation wrong: r=%r Q=%r g(r)=%r g(r+Q)=%r' % (r3, Q3, g(r3), g(r3 + Q3)))
 				if cheap_stockouts:
-					raise StopIteration          # the remaining approximations assume p > h (their defining equations have no solution otherwise)
+					# of the remaining approximations only the loss-function one has a solution for p < h
+					r4, Q4 = rq.r_q_loss_function_approximation(h, p, K, lam, sd, L)
+					z4 = (r4 - mu) / sigma
+					n1_4 = sigma * (norm.pdf(z4) - z4 * (1 - norm.cdf(z4)))
+					n2_4 = 0.5 * sigma ** 2 * ((z4 * z4 + 1) * (1 - norm.cdf(z4)) - z4 * norm.pdf(z4))
+					if abs(n1_4 - h * Q4 / (h + p)) > 2e-5 or abs(Q4 - math.sqrt(2 * (K * lam + (h + p) * n2_4) / h)) > 1e-4 * max(1, Q4):
+						bad.append('loss-function approximation (r=%r, Q=%r) does not satisfy its defining equations: n(r)=%r vs hQ/(h+p)=%r' % (r4, Q4, n1_4, h * Q4 / (h + p)))
+					raise StopIteration
 				# approximations solve their own defining equations
 				r1, Q1, c1 = rq.r_q_eil_approximation(h, p, K, lam, sd, L)
 				n1 = sigma * (norm.pdf((r1 - mu) / sigma) - (r1 - mu) / sigma * (1 - norm.cdf((r1 - mu) / sigma)))
@@ -151,7 +162,7 @@ def run(rep, drv):
 				z4 = (r4 - mu) / sigma
 				n1_4 = sigma * (norm.pdf(z4) - z4 * (1 - norm.cdf(z4)))
 				n2_4 = 0.5 * sigma ** 2 * ((z4 * z4 + 1) * (1 - norm.cdf(z4)) - z4 * norm.pdf(z4))
-				if abs(n1_4 - h * Q4 / (h + p)) > 1e-4 * max(1, n1_4) or abs(Q4 - math.sqrt(2 * (K * lam + (h + p) * n2_4) / h)) > 1e-4 * max(1, Q4):
+				if abs(n1_4 - h * Q4 / (h + p)) > 2e-5 or abs(Q4 - math.sqrt(2 * (K * lam + (h + p) * n2_4) / h)) > 1e-4 * max(1, Q4):
 					bad.append('loss-function approximation (r=%r, Q=%r) does not satisfy its defining equations: n(r)=%r vs hQ/(h+p)=%r; Q vs %r' % (
 						r4, Q4, n1_4, h * Q4 / (h + p), math.sqrt(2 * (K * lam + (h + p) * n2_4) / h)))
 		except StopIteration:
